@@ -19,7 +19,9 @@ OUTCOMES = ["ok", "InvalidSignatureError", "InvalidAuthTagError", "IncorrectPair
             "TlvParseException", "ValueError", "CancelledError",
             "peer-close-at-M1", "peer-close-at-M3", "http-470-at-M1", "http-400-at-M3",
             # pair-verify succeeds, then the owner's connection_made(True) hook (re-subscription) fails
-            "ok-then-hook-KeyError", "ok-then-hook-HttpErrorResponse"]
+            "ok-then-hook-KeyError", "ok-then-hook-HttpErrorResponse",
+            # the real get_session_keys with damaged long-term keys in the pairing data (fails when the keys are needed)
+            "real-verify-with-damaged-pairing-data"]
 REPRESENTATIVES = ["ok", "InvalidSignatureError", "IncorrectPairingIdError", "ValueError", "CancelledError",
                    "peer-close-at-M1", "peer-close-at-M3", "http-470-at-M1", "ok-then-hook-KeyError"]
 HOSTS = [["10.0.0.1"], ["accessory.local"]]  # an advertised literal address, or a name that resolves to it
@@ -324,6 +326,9 @@ def attempt(M, env, conn, out, late_loss=False):
         return b"sid", (lambda salt, info, length=32: b"K" * 32)
 
     M.get_session_keys = gsk
+    if out == "real-verify-with-damaged-pairing-data":
+        M.get_session_keys = env.saved["get_session_keys"]
+        conn.pairing_data = {"AccessoryPairingID": "AA:BB", "AccessoryLTPK": "00ff", "iOSPairingId": "me", "iOSDeviceLTSK": "zz", "iOSDeviceLTPK": "00"}
     # through the real _reconnect (its exception classes, the immediate retry on a newly marked address) up to its back-off sleep
     r = drive(conn._reconnect())
     return ("raised", "failed attempt, connector sleeps") if r == ("raised", "EndOfAttempt") else r
